@@ -14,6 +14,9 @@ Line-protocol driver for C09.  One case = one route table and one or more reques
                                                     through `ServiceRequest::app_data`
            | 'z='NAT                                .wrap(slow NAT): a middleware whose factory future is Pending
                                                     NAT times (start-up order only; no effect on the model)
+           | 'c='('a'|'b'|'i')NAT                   children NAT.. are registered through `.configure(|cfg| …)`;
+                                                    a: `.default_service` before it, b: after it, i: default
+                                                    (and data) set inside the closure (same table; no effect on the model)
   route   := ('*' | GUARD('&'GUARD)*) '>' NAT ('!'NAT)?   web::route().guard(..)….to(handler NAT) [.wrap(slow NAT)]
   GUARD   := 'M~'method | 'H~'name'~'value | 'O~'host | 'A('GUARD(','GUARD)*')' | 'Y('…')' | 'N('GUARD')'
            | 'D~'NAT                                fn_guard(|ctx| ctx.app_data::<Marker>() == Some(NAT))
@@ -116,6 +119,9 @@ def parseAttrs : List String → Attrs → Option (Attrs × List String)
       match (t.drop 2).toString.toNat? with
       | some n => parseAttrs rest { a with wrap := some n }
       | none => none
+    else if t.startsWith "c=" then
+      -- children from index k on are registered through `.configure(|cfg| …)`: same table
+      parseAttrs rest a
     else if t.startsWith "z=" then
       match (t.drop 2).toString.toNat? with
       | some _ => parseAttrs rest a
